@@ -221,11 +221,11 @@ def run_check(pid, tier, check):
                 if k in c:
                     ec[k] = c[k]
             # wall-clock budget per case: a case that exceeds it is inconclusive, the other cases still report
-            ec["wall_s"] = c.get("wall_s", {"quick": 900, "thorough": 3 * 3600}[tier])
+            ec["wall_s"] = c.get("wall_s", {"quick": 1800, "thorough": 3 * 3600}[tier])
             ecases.append(ec)
         res, log = run_symgo(job, ecases, bdir, "j%d" % ji, workers=int(os.environ.get("VERIF_WORKERS", "16")),
                              timeout_ms=job.get("timeout_ms", {"quick": 60000, "thorough": 300000}[tier]),
-                             wall_timeout=job.get("wall_timeout", {"quick": 3000, "thorough": 6 * 3600}[tier]))
+                             wall_timeout=job.get("wall_timeout", {"quick": 3600, "thorough": 6 * 3600}[tier]))
         if res.get("error"):
             inconclusive.append("job %d: %s" % (ji, res["error"]))
             continue
